@@ -202,16 +202,26 @@ def check_compute_jacobian(ctx: Ctx) -> None:
     _check_zero_fill(ctx, f, con, after=[cfg.node_of(d) for d in dels] + [cfg.node_of(c) for c in call])
     g = ctx.index.method(PC, "MDOParallelChain", "_compute_jacobian")
     _check_zero_fill(ctx, g, cname(PC, "MDOParallelChain", "_compute_jacobian"), after=[])
-    # parallel merge: blocks of one output from several disciplines are merged, not replaced
-    upd = [c for c in walk_body(g) if isinstance(c, ast.Call) and last_attr(c) == "update" and dotted(c.func.value) == "chain_jacobian"]
+    # parallel chain: value and Jacobian of an output computed by several disciplines come from the same (last) one
+    ex = ctx.index.method(PC, "MDOParallelChain", "_execute")
+    loops_e = [s for s in stmts_of(ex) if isinstance(s, ast.For) and norm_stmt(s.iter) == "self.disciplines"]
+    ok_e = len(loops_e) == 1 and any(isinstance(c, ast.Call) and norm_stmt(c.func) == "self.io.data.update" for c in ast.walk(loops_e[0]))
+    ctx.ob("9.3-last-wins", cname(PC, "MDOParallelChain", "_execute"), ok_e, "the outputs are taken discipline by discipline in the order of self.disciplines (the last one computing a name defines it)", node=(loops_e or [ex])[0], stmt="outputs updated in discipline order")
+    src = [s for s in stmts_of(g) if isinstance(s, ast.Assign) and isinstance(s.value, ast.Call) and norm_stmt(s.value.func) == "self.parallel_lin.execute"]
+    jl = [s for s in stmts_of(g) if isinstance(s, ast.For) and src and dotted(s.iter) == dotted(src[0].targets[0])]
     news = [s for s in stmts_of(g) if isinstance(s, ast.Assign) and isinstance(s.targets[0], ast.Subscript) and dotted(s.targets[0].value) == "self.jac"]
+    merges = [c for c in walk_body(g) if isinstance(c, ast.Call) and last_attr(c) in ("update", "setdefault") and (dotted(c.func.value) == "self.jac" or any(isinstance(s, ast.Assign) and dotted(s.targets[0]) == dotted(c.func.value) and "self.jac" in norm_stmt(s.value) for s in stmts_of(g)))]
     cg = cfg_of(g)
-    ok = len(upd) == 1 and len(news) == 1
+    ok = len(jl) == 1 and len(news) == 1 and not merges
     if ok:
-        conds = [(t, v) for t, v in branch_conditions(cg, cg.node_of(news[0])) if cg.kind[t] == "test"]
-        ok = len(conds) == 1 and conds[0][1] and norm_stmt(cg.ast[conds[0][0]].test) == "chain_jacobian is None"
-        ok = ok and not [tv for tv in branch_conditions(cg, cg.node_of(upd[0])) if cg.kind[tv[0]] == "test"]
-    ctx.ob("9.3-merge", cname(PC, "MDOParallelChain", "_compute_jacobian"), ok, "Jacobian rows of one output coming from several parallel disciplines must be merged into one row (created once, updated for each discipline)", node=(upd or [g])[0])
+        inner = [s for s in ast.walk(jl[0]) if isinstance(s, ast.For) and s is not jl[0]]
+        ok = len(inner) == 1 and isinstance(inner[0].target, ast.Tuple) and news[0] in list(ast.walk(inner[0]))
+        if ok:
+            oname, ojac = (dotted(e) for e in inner[0].target.elts)
+            v = news[0].value
+            fresh = (isinstance(v, ast.Call) and dotted(v.func) == "dict" and len(v.args) == 1 and dotted(v.args[0]) == ojac) or (isinstance(v, ast.Call) and last_attr(v) == "copy" and dotted(v.func.value) == ojac) or (isinstance(v, ast.Dict) and len(v.keys) == 1 and v.keys[0] is None and dotted(v.values[0]) == ojac)
+            ok = dotted(news[0].targets[0].slice) == oname and fresh and not [tv for tv in branch_conditions(cg, cg.node_of(news[0])) if cg.kind[tv[0]] == "test"]
+    ctx.ob("9.3-last-wins", cname(PC, "MDOParallelChain", "_compute_jacobian"), bool(ok), "the Jacobian row of an output must be REPLACED by (a copy of) the row of each later discipline computing it, in the order of the disciplines: merging rows keeps blocks of a discipline whose value was overwritten; aliasing the discipline's own row lets the zero filling write into it", node=(news or merges or [g])[0], stmt="row of the last discipline replaces the previous one (copied)")
     # additive chain
     h = ctx.index.method(AC, "MDOAdditiveChain", "_compute_jacobian")
     conh = cname(AC, "MDOAdditiveChain", "_compute_jacobian")
@@ -381,7 +391,9 @@ WITNESSES = [
     {"name": "no-zero-fill", "file": CH, "old": "            fill_missing_keys=True,\n            init_type=Discipline.InitJacobianType.SPARSE,", "new": "            fill_missing_keys=False,\n            init_type=Discipline.InitJacobianType.SPARSE,", "expect": "9.3"},
     {"name": "parallel-no-zero-fill", "file": PC, "old": "        self._init_jacobian(\n            input_names,\n            output_names,\n            fill_missing_keys=True,\n            init_type=self.InitJacobianType.SPARSE,\n        )\n", "new": "", "expect": "9.3"},
     {"name": "remove-requested-inputs", "file": CH, "old": "                if input_name not in input_names:\n                    del output_jacobian[input_name]", "new": "                if input_name in input_names:\n                    del output_jacobian[input_name]", "expect": "9.3"},
-    {"name": "parallel-replaces-row", "file": PC, "old": "                chain_jacobian = self.jac.get(output_name)\n                if chain_jacobian is None:\n                    chain_jacobian = {}\n                    self.jac[output_name] = chain_jacobian\n                chain_jacobian.update(output_jacobian)", "new": "                self.jac[output_name] = dict(output_jacobian)", "expect": "9.3"},
+    {"name": "parallel-merges-rows", "file": PC, "old": "                self.jac[output_name] = dict(output_jacobian)", "new": "                self.jac.setdefault(output_name, {}).update(output_jacobian)", "expect": "9.3"},
+    {"name": "parallel-first-discipline-wins", "file": PC, "old": "                self.jac[output_name] = dict(output_jacobian)", "new": "                self.jac.setdefault(output_name, dict(output_jacobian))", "expect": "9.3"},
+    {"name": "parallel-row-aliases-discipline-jacobian", "file": PC, "old": "                self.jac[output_name] = dict(output_jacobian)", "new": "                self.jac[output_name] = output_jacobian", "expect": "9.3"},
     {"name": "zero-shape-transposed", "file": DI, "old": "                        jac_loc[input_name] = default_matrix((output_size, input_size))\n        else:", "new": "                        jac_loc[input_name] = default_matrix((input_size, output_size))\n        else:", "expect": "9.3"},
     {"name": "fill-overwrites", "file": DI, "old": "                    sub_jac = jac_loc.get(input_name)\n                    if sub_jac is None:\n                        jac_loc[input_name]", "new": "                    sub_jac = jac_loc.get(input_name)\n                    if True:\n                        jac_loc[input_name]", "expect": "9.3"},
     {"name": "cache-key-inputs-only", "file": CH, "old": "        diff_ios = (set(input_names), set(output_names))\n        if self._last_diff_inouts != diff_ios:", "new": "        diff_ios = set(input_names)\n        if self._last_diff_inouts != diff_ios:", "expect": "9.4"},
